@@ -84,7 +84,7 @@ Qed.
 Lemma step_sim m a o :
   R m a -> R (fst (step m o)) (fst (sstep a o)) /\ snd (step m o) = snd (sstep a o).
 Proof.
-  intro HR. pose proof HR as [Ht Hf]. destruct o as [n s|n rc s|n rc|n|n]; cbn [step sstep].
+  intro HR. pose proof HR as [Ht Hf]. destruct o as [n s|n rc s|n rc|n|n|]; cbn [step sstep].
   - split; [|reflexivity]. split; cbn [fst tbl files stbl sfiles]; [exact Ht|].
     intro x. cbn [ffind]. unfold upd. rewrite N.eqb_sym. destruct (N.eqb x n); [reflexivity|apply Hf].
   - apply compile_sim; exact HR.
@@ -93,6 +93,7 @@ Proof.
   - destruct (request_sim m a n false HR) as [H1 H2].
     destruct (request m n false) as [m1 o1]. destruct (srequest a n false) as [a1 o1'].
     cbn [fst snd] in H1, H2. subst o1'. destruct o1; (split; [exact H1|reflexivity]).
+  - split; [|reflexivity]. split; cbn [fst tbl files stbl sfiles]; [reflexivity|exact Hf].
 Qed.
 
 Lemma run_from_sim ops : forall m a, R m a -> run_from m ops = spec_from a ops.
@@ -120,11 +121,13 @@ Proof.
 Qed.
 
 Lemma sstep_agree n a1 a2 o :
-  agree n a1 a2 -> op_name o <> n ->
+  agree n a1 a2 -> op_name o <> Some n ->
   snd (sstep a1 o) = snd (sstep a2 o) /\ agree n (fst (sstep a1 o)) (fst (sstep a2 o)).
 Proof.
-  intros HA Hn. pose proof HA as [Ht Hf].
-  destruct o as [k s|k rc s|k rc|k|k]; cbn [op_name] in Hn; cbn [sstep].
+  intros HA Hn0. pose proof HA as [Ht Hf].
+  destruct o as [k s|k rc s|k rc|k|k|]; cbn [op_name] in Hn0; cbn [sstep];
+    try (assert (Hn : k <> n) by congruence);
+    [| | | | |split; [reflexivity|split; cbn [fst stbl sfiles]; [reflexivity|exact Hf]]].
   - split; [reflexivity|]. split; cbn [fst stbl sfiles]; [exact Ht|].
     intro x. unfold upd. destruct (N.eqb x k); [reflexivity|apply Hf].
   - unfold scompile. rewrite <- (Ht k Hn).
@@ -151,7 +154,7 @@ Proof.
 Qed.
 
 Lemma spec_from_agree n ops : forall a1 a2,
-  agree n a1 a2 -> (forall o, In o ops -> op_name o <> n) -> spec_from a1 ops = spec_from a2 ops.
+  agree n a1 a2 -> (forall o, In o ops -> op_name o <> Some n) -> spec_from a1 ops = spec_from a2 ops.
 Proof.
   induction ops as [|o r IH]; intros a1 a2 HA Hn; [reflexivity|].
   cbn [spec_from]. destruct (sstep_agree n a1 a2 o HA (Hn o (or_introl eq_refl))) as [H1 H2].
@@ -178,7 +181,7 @@ Theorem reject_leaves_master_usable :
     /\ snd (step m' (OExec n)) = BNotLoaded
     /\ snd (step m' (ORun n)) = BFailed
     (* every later history about other names observes what it observes on the table without the entry *)
-    /\ (forall ops, (forall o, In o ops -> op_name o <> n) ->
+    /\ (forall ops, (forall o, In o ops -> op_name o <> Some n) ->
           run_from m' ops = run_from (mkM (tremove (tbl m) n) (files m)) ops).
 Proof.
   intros m n rc k Hrej m'.
@@ -213,7 +216,7 @@ Qed.
 Corollary reject_after_any_history :
   forall (pre post : list op) (n k : N) (rc : bool),
     nth_error (run (pre ++ [OCompile n rc (Reject k)])) (length pre) = Some (BRejected k) ->
-    (forall o, In o post -> op_name o <> n) ->
+    (forall o, In o post -> op_name o <> Some n) ->
     forall s, nth_error (run (pre ++ OCompile n rc (Reject k) :: OCompile n false s :: post)) (S (length pre)) = Some BNotLoaded.
 Proof.
   intros pre post n k rc Hrej Hpost s. unfold run in *.
